@@ -238,6 +238,18 @@ func checkPixels(c Case) error {
 		if !bytes.Equal(pix(img), pix(base)) {
 			return harness.Violatef("c16/operator", "DrawOp=%v: rendering in one go differs from 'first path with the operator, the rest source-over' (first difference at %s)", op, firstDiff(img, base))
 		}
+		// Independent of the decomposition above: with draw.Src the first drawn
+		// path replaces the whole target rectangle, so what was in the
+		// destination before cannot show through anywhere in it.
+		if c.Src && z2.n > 0 {
+			other := newImage(c.Alpha, own, color.RGBA{0x70, 0x05, 0x60, 0xd0})
+			zo := vec.NewRasterizer(other)
+			zo.DrawOp = draw.Src
+			renderTo(zo, own, vb, pal, prog)
+			if !bytes.Equal(pix(other), pix(base)) {
+				return harness.Violatef("c16/operator-src-ignored", "DrawOp=Src: the result depends on what the destination held before (first difference at %s); the first drawn path must replace the rectangle", firstDiff(other, base))
+			}
+		}
 	}
 	return nil
 }
